@@ -56,3 +56,27 @@ func corpus(c *core.Ctx) []Witness {
 	corpusCache = out
 	return out
 }
+
+var literalsCache [][]byte
+
+// literals returns the byte-string constants found in the sources of the
+// packages under test (extracted by the driver from the working tree).
+func literals(c *core.Ctx) [][]byte {
+	if literalsCache != nil {
+		return literalsCache
+	}
+	b, err := os.ReadFile(filepath.Join(os.Getenv("VERIF_WORKER_DIR"), "literals.json"))
+	if err != nil {
+		c.Note("literals-missing", 1)
+		literalsCache = [][]byte{}
+		return literalsCache
+	}
+	var hs []string
+	json.Unmarshal(b, &hs)
+	for _, h := range hs {
+		if d, err := hex.DecodeString(h); err == nil {
+			literalsCache = append(literalsCache, d)
+		}
+	}
+	return literalsCache
+}
